@@ -252,7 +252,8 @@ def gen_c08(rng, plat=None):
 # senders only use detached puts (no second delivery possible) uses the real get<T>().
 def qpipeline(rng, family="queue-pipeline"):
     """producers -> consumers on 1..3 queues, as many gets as puts per queue.
-    queue-detached: detached puts only, real get<T>(); queue-timeouts: get(timeout) bodies and wait_for() that keeps the handle"""
+    queue-detached: detached puts only, real get<T>(); queue-timeouts: the real get<T>(timeout) and wait_for() that keeps the handle
+    (run in batches of their own: while the known findings about timeouts are open they write into dead stack frames)"""
     na, prod, cons = _roles(rng)
     nq = rng.randint(1, 3)
     scripts = [[] for _ in range(na)]
@@ -277,7 +278,7 @@ def qpipeline(rng, family="queue-pipeline"):
     for c, q in todo:
         ops = scripts[c]
         if tmo and rng.random() < 0.3:
-            ops.append("qgetts:%d:%d" % (q, rng.choice([0, 1, 100, 10000])))
+            ops.append("qgett:%d:%d" % (q, rng.choice([0, 1, 100, 10000])))
         else:
             ops.append("%s:%d" % (rng.choice(gk), q))
         if tmo and rng.random() < 0.25:
@@ -303,12 +304,12 @@ def qrandom(rng):
     return {"family": "queue-random", "plat": platform(rng), "mb": "", "nq": nq, "scripts": scripts}
 
 
-def gen_c09(rng, plat=None):
+def gen_c09(rng, plat=None, timeouts=False):
+    if timeouts:
+        return qpipeline(rng, "queue-timeouts")
     r = rng.random()
-    if r < 0.30:
+    if r < 0.34:
         return qpipeline(rng, "queue-detached")
-    if r < 0.55:
+    if r < 0.62:
         return qpipeline(rng)
-    if r < 0.88:
-        return qrandom(rng)
-    return qpipeline(rng, "queue-timeouts")
+    return qrandom(rng)
